@@ -354,8 +354,10 @@ class PLSSDesc:
         # Preprocessed description set to .orig_desc until parsed.
         self.pp_desc = self.orig_desc
 
-        # If layout was specified as kwarg, use that:
-        self.layout = layout
+        # If layout was specified as kwarg, use that (otherwise keep
+        # the layout that was specified in `config`, if any):
+        if layout is not None:
+            self.layout = layout
         # Track whether the layout was dictated by the user.
         self.layout_specified = False
         if self.layout is not None:
@@ -646,6 +648,9 @@ class PLSSDesc:
             require_colon = self.sec_colon_required
         elif sec_colon_cautious:
             require_colon = SecFinder.SEC_COLON_CAUTIOUS
+
+        if layout is None:
+            layout = self.layout
 
         if not default_ns:
             default_ns = self.default_ns
